@@ -255,7 +255,8 @@ def run_units(units, prop, seed, tier, jobs=None):
         env.update({k: str(v) for k, v in u.env.items()})
         t0 = time.time()
         try:
-            r = subprocess.run(u.argv, env=env, stdout=subprocess.PIPE, stderr=subprocess.STDOUT, timeout=u.timeout,
+            # thorough tiers get four times the unit's time limit: the limit is a safety net against hangs, not a budget
+            r = subprocess.run(u.argv, env=env, stdout=subprocess.PIPE, stderr=subprocess.STDOUT, timeout=u.timeout * (4 if tier == "thorough" else 1),
                                cwd=u.cwd or env["VERIF_SCRATCH"], errors="replace", text=True)
             u.rc, u.output = r.returncode, r.stdout
         except subprocess.TimeoutExpired as e:
@@ -356,6 +357,11 @@ class Result:
                         self.inconclusive += 1
                     else:
                         self.broken.append("fuzz unit %s ended rc=%s without artifact\n%s" % (u.name, u.rc, u.output[-2000:]))
+            elif u.rc == -999 and not rep.get("failures"):
+                # the unit hit its wall-clock limit (overloaded machine): inconclusive, never a violation; the floors below
+                # still turn "explored too little" into a BROKEN-CHECK
+                self.inconclusive += 1
+                print("[verif] INCONCLUSIVE unit %s hit its time limit after %d evaluations" % (u.name, rep.get("evaluations", 0)))
             elif u.rc != 0 and not rep.get("failures"):
                 # crashed (sanitizer / trap / abort) without recording a failure itself
                 self.failures.append({"sig": "crash:rc=%s" % u.rc, "replay": rep.get("current_case", ""),
